@@ -45,7 +45,7 @@ func (p c06) Run(c *core.Ctx) {
 }
 
 // runModelCase starts the scenario under `orders` order settings and compares each with the model.
-func runModelCase(c *core.Ctx, g *world.G, holders []any, orders int, strict bool, classify func(r *world.Run, ps []problem, exp world.Expect) string) {
+func runModelCase(c *core.Ctx, g *world.G, holders []any, orders int, strict bool, classify func(r *world.Run, ps []problem, exp world.Expect) string, nontrivial ...func(exp world.Expect) bool) {
 	sc := g.Sc
 	var hdesc []string
 	for _, h := range holders {
@@ -71,6 +71,12 @@ func runModelCase(c *core.Ctx, g *world.G, holders []any, orders int, strict boo
 			}
 		}
 		c.Count("points_checked", pts)
+		if len(nontrivial) > 0 {
+			multi = 0
+			if nontrivial[0](exp) {
+				multi = 1
+			}
+		}
 		if o == 0 {
 			if multi > 0 {
 				c.Nontrivial(sc.GraphSig() + fmt.Sprint(hdesc))
